@@ -51,6 +51,8 @@ type Variant struct {
 	Fund  int64    // user funds per asset
 	Pool  int64    // pool liquidity per asset funded through MsgFundModuleAccounts
 	Users []string
+	LowT1 bool  // pool 1 holds almost none of its first transit asset: cross-pool borrows bridge through the second one
+	Batch uint64 // liquidation sweep batch size (0 = module default)
 }
 
 var Variants = map[string]Variant{
@@ -200,7 +202,7 @@ func NewFix(v Variant) *Fix {
 	}
 	// V2 liquidation / auction configuration for the lend app (Dutch auctions only)
 	e.App.NewliqKeeper.SetLiquidationWhiteListing(ctx, liqtypes.LiquidationWhiteListing{AppId: f.App, Initiator: true, IsDutchActivated: true,
-		DutchAuctionParam:  &liqtypes.DutchAuctionParam{Premium: dec("0.1"), Discount: dec("0.1"), DecrementFactor: sdk.NewInt(1)},
+		DutchAuctionParam:  &liqtypes.DutchAuctionParam{Premium: dec("1.2"), Discount: dec("0.7"), DecrementFactor: sdk.NewInt(1)},
 		IsEnglishActivated: false, KeeeperIncentive: dec("0.1")})
 	e.App.NewaucKeeper.SetAuctionParams(ctx, auctypes.AuctionParams{AuctionDurationSeconds: 3600, Step: dec("0.1"), WithdrawalFee: dec("0.0"),
 		ClosingFee: dec("0.0"), MinUsdValueLeft: 100000, BidFactor: dec("0.1"), LiquidationPenalty: dec("0.1"), AuctionBonus: dec("0.0")})
@@ -212,10 +214,17 @@ func NewFix(v Variant) *Fix {
 			panic("app reserve: " + r.Err)
 		}
 	}
+	if v.Batch > 0 {
+		e.App.NewliqKeeper.SetParams(ctx, liqtypes.Params{LiquidationBatchSize: v.Batch})
+	}
 	// pool liquidity: governance funds every (pool, asset) through the real message
 	gov := e.Users["gov"].String()
 	for _, pa := range [][2]uint64{{1, XA}, {1, TB}, {1, TC}, {2, XD}, {2, TB}, {2, TC}} {
-		r := e.Deliver(lendtypes.NewMsgFundModuleAccounts(pa[0], pa[1], gov, sdk.NewInt64Coin(f.denom(pa[1]), v.Pool)))
+		amt := v.Pool
+		if v.LowT1 && pa[0] == 1 && pa[1] == TB {
+			amt = 3
+		}
+		r := e.Deliver(lendtypes.NewMsgFundModuleAccounts(pa[0], pa[1], gov, sdk.NewInt64Coin(f.denom(pa[1]), amt)))
 		if !r.OK {
 			panic("fund: " + r.Err)
 		}
